@@ -51,7 +51,7 @@ func (f *Formatter) Format(content string) (string, error) {
 
 	// Check if this looks like a full document (starts with <!DOCTYPE or <html)
 	trimmedBody := strings.TrimSpace(body)
-	isFullDocument := strings.HasPrefix(trimmedBody, "<!DOCTYPE") || strings.HasPrefix(trimmedBody, "<html")
+	isFullDocument := hasPrefixFold(trimmedBody, "<!DOCTYPE") || hasPrefixFold(trimmedBody, "<html")
 
 	if isFullDocument {
 		return f.formatFullDocument(frontmatter, body)
@@ -59,6 +59,12 @@ func (f *Formatter) Format(content string) (string, error) {
 
 	// Handle partial/fragment formatting
 	return f.formatFragment(frontmatter, body)
+}
+
+// hasPrefixFold reports whether s begins with prefix, ignoring letter case
+// (tag names and the doctype keyword are case-insensitive).
+func hasPrefixFold(s, prefix string) bool {
+	return len(s) >= len(prefix) && strings.EqualFold(s[:len(prefix)], prefix)
 }
 
 // formatFullDocument formats a complete HTML document.
@@ -69,7 +75,7 @@ func (f *Formatter) formatFullDocument(frontmatter, body string) (string, error)
 	var doctype string
 	var htmlContent string
 
-	if strings.HasPrefix(trimmedBody, "<!DOCTYPE") {
+	if hasPrefixFold(trimmedBody, "<!DOCTYPE") {
 		// Find the end of DOCTYPE declaration
 		endIdx := strings.Index(trimmedBody, ">")
 		if endIdx != -1 {
